@@ -210,17 +210,17 @@ def r5(ctx):
               line=s.stmt.lineno, role="logdet:refresh", expected=f"numpy.linalg.slogdet({M})[1]", found=how)
     # site 3: BIC
     from . import c16
-    c16.r4(ctx)
+    ctx.sub(c16.r4)
 
 
 @rule("C03", "R6", "CMP", "clusters with fewer than 2 points are repopulated before they are fitted (the covariance of a single point is NaN)")
 def r6(ctx):
     from . import c08, c09
-    c08.r2(ctx)
-    c09.r2(ctx)
+    ctx.sub(c08.r2)
+    ctx.sub(c09.r2)
 
 
 @rule("C03", "R7", "FLOW", "aggregates over an empty cluster are guarded (no NaN mean / median in the result)")
 def r7(ctx):
     from . import c06
-    c06.r2(ctx)
+    ctx.sub(c06.r2)
